@@ -342,7 +342,7 @@ class Run:
 
 
 TRUSTED_BASE_COMMON = [
-    'Coq 8.16.1 kernel (coqc; vm_compute used, native_compute not used); coqchk re-check in the thorough tier',
+    'Coq 8.16.1 kernel (coqc; vm_compute used, native_compute not used); coqchk -o re-check of every Props file run separately (tools/coqchk_all.sh, report in coqchk_report.txt: no axioms)',
     'extraction: ExtrOcamlBasic only (Extract Inductive bool, option, unit, list, prod, sumbool, sumor -> OCaml); nat/positive/N/Z/Q stay Coq datatypes; OCaml 4.13 + zarith used only for parsing/printing numbers in ocaml/driver.ml',
     'harness (Python): input generators, scripted random source, label->N mapping, canonicalisation and comparison',
     'Python/numpy/networkx semantics of the constructs the hand-written model mirrors (modelled, tied by the correspondence check, not verified)',
